@@ -50,6 +50,8 @@ fn oracle_of(inp: &Input) -> crate::mid::Oracle {
     match inp.ring {
         // (0, idx) stands for the sparse large ADF #idx
         Some((0, idx)) => crate::mid::Oracle::from_formulas(&crate::mid::sparse(idx)),
+        // (1, k) stands for k self-supporting statements
+        Some((1, k)) => crate::mid::Oracle::from_formulas(&crate::mid::selfsup(k as usize)),
         Some((n, idx)) => crate::mid::Oracle::from_formulas(&crate::mid::ring(n, idx)),
         None => crate::mid::Oracle::from_tts(&inp.tts),
     }
@@ -417,6 +419,12 @@ pub fn run_c15(run: &Run) {
         inputs.push(Input { labels: l.labels.clone(), text: l.text(None, ("\n", "", "")), tts: vec![], ring: Some((n, idx)) });
     }
     let big_to = inputs.len();
+    // an input with 512 two-valued models (9 self-supporting statements): more than a buffer of a few hundred holds
+    let many_from = inputs.len();
+    {
+        let l = crate::mid::selfsup(9);
+        inputs.push(Input { labels: l.labels.clone(), text: l.text(None, ("\n", "", "")), tts: vec![], ring: Some((1, 9)) });
+    }
     for (i, inp) in inputs.iter().enumerate() {
         std::fs::write(format!("{}/in_{}.adf", tmp.0, i), &inp.text).unwrap_or_else(|_| machinery_error("cannot write input file"));
     }
@@ -434,6 +442,12 @@ pub fn run_c15(run: &Run) {
         }
         jobs.push(Job { file, mode: 2, sort: (file + 1) % 3, flags: 0b0111111101, heu: None, extra: Extra::default() });
     }
+    // many models: the two-valued search (and the nogood search next to it) in the modes that offer it
+    for mode in [0usize, 2] {
+        jobs.push(Job { file: many_from, mode, sort: 0, flags: 1 << 9, heu: None, extra: Extra::default() });
+        jobs.push(Job { file: many_from, mode, sort: mode, flags: (1 << 8) | (1 << 9), heu: Some(mode), extra: Extra::default() });
+    }
+    jobs.push(Job { file: many_from, mode: 2, sort: 1, flags: (1 << 2) | (1 << 6) | (1 << 7), heu: None, extra: Extra::default() });
     // A(2): single flags
     for file in 0..256 {
         for mode in 0..3 {
